@@ -414,7 +414,7 @@ func ruleAnswer(c *RC) *RuleResult {
 		}
 		bad := ""
 		nf := 0
-		for _, e := range c.A.walkFunc(v, st, false) {
+		for _, e := range c.exitsFrom(v, st, false) {
 			if len(e.Ret) == 0 || e.Ret[0].S != "false" {
 				continue
 			}
@@ -450,7 +450,7 @@ func ruleAnswer(c *RC) *RuleResult {
 		}
 		st.F.add(Lit{mkAtom("eq", mkTerm(KParam, f.Params[0].Name()), constTerm("CVTimeout")), false})
 		bad := ""
-		for _, e := range c.A.walkFunc(f, st, false) {
+		for _, e := range c.exitsFrom(f, st, false) {
 			okk := false
 			for w := range c.wrappers {
 				if e.Events["fn:"+w.Name] {
